@@ -1,14 +1,38 @@
 import SMV.Driver
 open SMV.Driver
 
-partial def loop (h : IO.FS.Stream) (out : IO.FS.Stream) : IO Unit := do
+/-- Line protocol:
+  `<id> <feature> <def…>`          one definition: T1 dump + T2 tokens
+  `INFO <id> <feature> <def…>`     machine facts for the harness generator
+  `SCN <id> <feature> <def…>` … op lines … `END`   a T3 scenario -/
+partial def loop (h : IO.FS.Stream) (out : IO.FS.Stream) (st : Option ScnState) : IO Unit := do
   let line ← h.getLine
   if line.isEmpty then return ()
-  for l in processLine line do
-    out.putStrLn l
-  loop h out
+  let l := line.trimAscii.toString
+  match st with
+  | some s =>
+    if l == "END" then
+      out.putStrLn "#END"
+      loop h out none
+    else
+      let (s', o) := opLine s l
+      out.putStrLn o
+      loop h out (some s')
+  | none =>
+    let toks := (l.splitOn " ").filter (· ≠ "")
+    match toks with
+    | "SCN" :: rest =>
+      let (s, lines) := startScenario rest
+      for x in lines do out.putStrLn x
+      loop h out (some s)
+    | "INFO" :: rest =>
+      for x in infoOf rest do out.putStrLn x
+      loop h out none
+    | _ =>
+      for x in processLine line do out.putStrLn x
+      loop h out none
 
 def main : IO Unit := do
   let stdin ← IO.getStdin
   let stdout ← IO.getStdout
-  loop stdin stdout
+  loop stdin stdout none
